@@ -162,6 +162,9 @@ SPEC = {
     "module": "C02",
     "theorems": ["C02_any_tables", "C02_guard_holds_for_generated_tables", "C02_partial", "C02_tiled_pairwise",
                  "C02_refuted"],
+    "more": [{"module": "C02r", "target": "props/C02r.vo",
+              "theorems": ["C02_respelled_any_tables", "C02_respelled_partial", "C02_located_r_non_numchars",
+                           "C02_respelled_unguarded_refuted"]}],
     "correspond": correspond,
     "statement": "if parsing s returns a tree and no semantic action dropped text or re-spelled a token (ghost events "
                  "of the model), then for every node s[pos:pos+size] = str(node), the slice widened by head/tail = "
@@ -169,13 +172,18 @@ SPEC = {
                  "without overlapping, and the root's widened span is (0, len(s)); for ANY LR tables under the extra "
                  "guard that no OR/AND reduction has a right operand of the same class (a latent size defect of "
                  "binary_operation, proved unreachable with PLY's tables); the full statement (with numeral "
-                 "re-spelling) is refuted by 'foo :bar' (F1)",
+                 "re-spelling) is refuted by 'foo :bar' (F1). C02r: under the single guard 'no text was dropped' "
+                 "(dropped_texts s = [], i.e. not F1; numerals may be re-spelled) every node's two slices equal its "
+                 "printed forms up to numeral re-spelling at STRING level (resp), with exact spans, tiling and root "
+                 "span; the token-level form of the slice clause (lexing the slice) is not proved",
     "level_text": "Coq proof: a recursive layout predicate (pos = offset, size = printed length, children where the "
                   "printed form puts them) is kept by every semantic action (HeadTailManager.pos arithmetic with "
                   "head/tail transfers, create_operation flattening) and by the LR driver for any tables, starting "
                   "from lexer positions proved to be offsets; it implies the slice/tiling clauses for every node. "
-                  "PARTIAL: inputs whose numerals are re-spelled or that lose text (F1) are covered by "
-                  "correspondence and the Python oracle only. Table facts (left associativity of OR/AND) are "
+                  "C02r redoes the invariant on the ORIGINAL text of each node (sizes count the numeral lexemes as "
+                  "written), so re-spelled numerals are covered by proof at string level. PARTIAL: inputs that lose "
+                  "text (F1) and the token-level reading of 'up to re-spelling' are covered by correspondence and "
+                  "the Python oracle only. Table facts (left associativity of OR/AND) are "
                   "checked by computation on the generated tables on every run.",
     "trusted_base": [
         "Coq 8.16.1 kernel (vm_compute for witnesses, table facts and correspondence; no native_compute); no axioms",
